@@ -18,7 +18,9 @@ for d in sorted(glob.glob(os.path.join(ROOT, "seeded", "*"))):
     for r in det:
         for l in r.get("output", []):
             if l.startswith("VIOLATION"):
-                viol.append(l.split("replay=")[1].split("/")[-1].rsplit("-", 1)[0].replace(r["check"] + "-", "", 1))
+                tail = l.split("replay=")[1].split()
+                nm = tail[0].split("/")[-1].rsplit("-", 1)[0].replace(r["check"] + "-", "", 1).replace("_", "::", 1)
+                viol.append(nm + (" (no input)" if len(tail) > 1 else ""))
     rows.append((m["id"], "yes" if m.get("confirmed") else "NO", "yes" if m.get("applies_to_repo_head", True) else "no (code changed by a later fix)",
                  ", ".join("%s: exit %s" % (r["check"], r["exit"]) for r in ran) or "-", ", ".join(sorted(set(viol))[:4]) or "-", what))
 print("| seed | confirmed (demo + suite) | applies to final HEAD | checks run | obligations that reported it | what it needs to manifest |")
